@@ -34,4 +34,20 @@ CHECKS = {
                         "gzip envelopes carry no DVID checksum by design (documented in SerializeData); for them only 'error or identical payload' with decompression requested is asserted",
                         "JPEG is lossy and only in the no-crash domain"],
     },
+    "C18": {
+        "pkg": "c18",
+        "level": "exploration",
+        "tests": [
+            T("TestC18Keys", (20000, 1), (1500000, 4)),
+            T("TestC18Packed", (10000, 1), (800000, 2)),
+            T("TestC18RLEs", (1500, 4), (40000, 16)),
+            T("TestC18ROI", (400, 2), (8000, 8)),
+        ],
+        "fuzz": [{"name": "FuzzC18ReadRLEs", "time": "60s"}],
+        "required_classes": ["keys/different-signs", "rle/adjacent-runs", "rle/run-crosses-block-edge", "rle/negative-coords", "roi/negative-spans"],
+        "rule": "rapid-generated: pairs of int32 block coordinates (boundary-biased, related by small deltas / sign flips) for the key codecs and order; pairs of |c|<2^20 coordinates for the packed index; sets of non-overlapping runs (shuffled, adjacent, single-voxel, long, negative bases) with a drawn subset, second set, block size, optional bounds and query points for the RLE algebra; ROI span sets + query points + mask box + extents over HTTP. Non-trivial: key pair with different signs on some axis / packed coordinate with a negative component / run set with >=1 adjacency and >=1 run crossing a block edge / ROI with >=2 spans and >=1 query point. Distinct = hash of the case value.",
+        "assumptions": ["runs are non-overlapping (the property's domain); coordinates stay within +-2^30 so that start+length cannot overflow int32",
+                        "RLEs.Add is only checked as a set union (its voxelsAdded count is not part of the statement)",
+                        "Split is only asserted for true subsets (documented precondition)"],
+    },
 }
